@@ -63,28 +63,29 @@ theorem C06_facade_carrier_is_linearisation_carrier : PE.trigOfField realTrig = 
     it, an all-passive cluster, an uncorrelated cluster; `m_0_apr_ = 2`.  Over ℝ: `project_equations()` returns `npX` (rows
     `[(1,1)]`, `[(1,−1),(2,1)]`, `[(2,1)]`, `rhs_ = (0,0,0)`, `min_x_ = [1]`), the kept observations are exact and `NoAlias`,
     `Σ·Pc = 1`, `RegListOK`, `RankGap` with the default `τ = 2⁻¹³` (every Schur pivot of `AᵀPA = [[1/2,−1/6],[−1/6,13/36]]`
-    is ≥ 1/8; full column rank), and `LocalNetwork` configured with cholesky or gso ANSWERS
-    (`prepareProjectEquations()` evaluated with b-W7b's lemmas; the answer by `C02_net_answered_iff_resolves`) — every
-    hypothesis of `C06_exact_network_solution_zero` on ONE object.  Envelope: `Homogenization::run` + the envelope
-    factorisation are not evaluated over ℝ on this matrix — not witnessed -/
+    is ≥ 1/8; full column rank), and `LocalNetwork` configured with envelope, cholesky or gso
+    ANSWERS (`prepareProjectEquations()` and `Homogenization::run` evaluated with b-W7b's lemmas; the answer by
+    `C02_net_answered_iff_resolves`) — every hypothesis of `C06_exact_network_solution_zero` on ONE object, for all
+    three algorithms of the theorem -/
 example : projectEquations Ex.netWexact = .ok (Ex.npX, Ex.uX) ∧
     (∀ ob ∈ revisedObs Ex.uX.net, ExactObs (sigmaOf Ex.uX.net) ob) ∧ (∀ ob ∈ revisedObs Ex.uX.net, NoAlias ob) ∧
     (revisedObs Ex.uX.net).length = 3 ∧ Ex.npX.rhs = #[0, 0, 0] ∧ Ex.npX.minx = [1] ∧ Ex.npX.m0 ≠ 0 ∧
     Sigma Ex.npX * Ex.PcX = 1 ∧ Env.RegListOK (toProblem Ex.npX) ∧ GapThresholds (1 / 8192 : ℝ) ∧
     RankGap (toProblem Ex.npX).A ((Ex.npX.m0 * Ex.npX.m0) • Ex.PcX) (toProblem Ex.npX).S (1 / 8192) ∧
-    ∀ alg : Alg, alg = .chol ∨ alg = .gso → ∃ a, netSolve alg Ex.npX = .ok a :=
+    ∀ alg : Alg, alg ≠ .svd → ∃ a, netSolve alg Ex.npX = .ok a :=
   ⟨Ex.pe_eq, by rw [Ex.uX_robs, Ex.uX_sigma]; exact Ex.robs_exact, by rw [Ex.uX_robs]; exact Ex.robs_noalias, rfl, rfl, rfl,
     by show (2 : ℝ) ≠ 0; norm_num, Ex.npX_sigma_inv, Ex.npX_reg, Props.C01.C01_gap_thresholds_default, Ex.npX_rankGap,
-    Ex.npX_answers⟩
+    Ex.npX_answers3⟩
 
-/-- … and the theorem APPLIED to it: what cholesky / gso answer on the levelling network is `x = 0`, `r = 0`, `[pvv] = 0` -/
-example (alg : Alg) (halg : alg = .chol ∨ alg = .gso) :
+/-- … and the theorem APPLIED to it: what envelope / cholesky / gso answer on the levelling network is `x = 0`, `r = 0`,
+    `[pvv] = 0` -/
+example (alg : Alg) (halg : alg ≠ .svd) :
     ∃ a, netSolve alg Ex.npX = .ok a ∧ toVec (toProblem Ex.npX).n a.x = 0 ∧ toVec (toProblem Ex.npX).m a.r = 0 ∧ a.pvv = 0 := by
-  obtain ⟨a, ha⟩ := Ex.npX_answers alg halg
+  obtain ⟨a, ha⟩ := Ex.npX_answers3 alg halg
   exact ⟨a, ha, C06_exact_network_solution_zero Ex.netWexact Ex.npX Ex.uX Ex.pe_eq
     (by rw [Ex.uX_robs, Ex.uX_sigma]; exact Ex.robs_exact)
     (by show (2 : ℝ) ≠ 0; norm_num) Ex.PcX Ex.npX_sigma_inv Ex.npX_reg Props.C01.C01_gap_thresholds_default Ex.npX_rankGap alg
-    (by rcases halg with rfl | rfl <;> decide) a ha⟩
+    halg a ha⟩
 
 /-- **the loop of `refine_adjustment()` at the true coordinates, on the EXECUTED pipeline**: `RA.Env.adjust` is
     `C06PL2.peAdjust alg mk` = `project_equations()` on the network `mk σ obs` followed by `netSolve alg` (index fields,
@@ -111,14 +112,14 @@ theorem C06_refine_adjustment_fixed_point_pipeline (alg : Alg) (halg : alg ≠ .
         = some (⟨σ, xyz, obs.map (C06RA.stored σ xyz), 0⟩, true, false) :=
   C06PL2.refineAdjustment_fixed_point_pipeline alg halg mk σ xyz obs np u a hpe hs hex hview hsub hm0 Pc hPc hreg hτ hgap
 
-/-- non-vacuity on the levelling network (no from_dh/to_dh): every hypothesis holds for cholesky and gso, so
-    `refine_adjustment()` over the executed `project_equations()` ∘ `netSolve` returns with 0 iterations -/
-example (alg : Alg) (halg : alg = .chol ∨ alg = .gso) : ∃ f0 : Nat, ∀ fuel, f0 ≤ fuel →
+/-- non-vacuity on the levelling network (no from_dh/to_dh): every hypothesis holds for envelope, cholesky and
+    gso, so `refine_adjustment()` over the executed `project_equations()` ∘ `netSolve` returns with 0 iterations -/
+example (alg : Alg) (halg : alg ≠ .svd) : ∃ f0 : Nat, ∀ fuel, f0 ≤ fuel →
     @RA.refineAdjustment ℝ instTrigScalarReal (C06PL2.peEnv alg (fun _ _ => Ex.netWexact) (fun n z _ _ => (n, z)) fuel) 5
         ⟨C06PL2.Ex.σW, C06PL2.Ex.xyzW, C06PL2.Ex.odW.map (C06RA.stored C06PL2.Ex.σW C06PL2.Ex.xyzW), 0⟩
       = some (⟨C06PL2.Ex.σW, C06PL2.Ex.xyzW, C06PL2.Ex.odW.map (C06RA.stored C06PL2.Ex.σW C06PL2.Ex.xyzW), 0⟩, true, false) := by
-  obtain ⟨a, ha⟩ := Ex.npX_answers alg halg
-  obtain ⟨f0, h⟩ := C06_refine_adjustment_fixed_point_pipeline alg (by rcases halg with rfl | rfl <;> decide)
+  obtain ⟨a, ha⟩ := Ex.npX_answers3 alg halg
+  obtain ⟨f0, h⟩ := C06_refine_adjustment_fixed_point_pipeline alg halg
     (fun _ _ => Ex.netWexact) C06PL2.Ex.σW C06PL2.Ex.xyzW C06PL2.Ex.odW Ex.npX Ex.uX a Ex.pe_eq ha C06PL2.Ex.odW_exact
     (fun _ _ => rfl) C06PL2.Ex.odW_sub (by show (2 : ℝ) ≠ 0; norm_num) Ex.PcX
     Ex.npX_sigma_inv Ex.npX_reg Props.C01.C01_gap_thresholds_default Ex.npX_rankGap
